@@ -101,8 +101,16 @@ def mutate_headers(rng, hs, allow_str=True, p=0.5):
     return hs
 
 
-def header_list(rng, kind, allow_str=True, p_mut=0.35):
-    extra = [rand_header(rng, allow_str) for _ in range(rng.randrange(0, 3))] if rng.random() < 0.5 else []
+CLEAN = [(b'user-agent', b'x/1.0'), (b'accept', b'*/*'), (b'cookie', b'a=b'), (b'cookie', b'c=d; e=f0123456789abcdefgh'),
+         (b'content-length', b'5'), (b'content-length', b'0'), (b'content-length', b'300'), (b'te', b'trailers'),
+         (b'authorization', b'secret'), (b'x-a', b''), (b'x-utf8', b'\xc3\xa9'), (b'x-bin', b'\xff\xfe'), (b'set-cookie', b'k=v')]
+
+
+def header_list(rng, kind, allow_str=True, p_mut=0.35, clean=False):
+    if clean:
+        extra = [pick(rng, CLEAN) + (rng.random() < 0.05,) for _ in range(rng.randrange(0, 3))] if rng.random() < 0.6 else []
+    else:
+        extra = [rand_header(rng, allow_str) for _ in range(rng.randrange(0, 3))] if rng.random() < 0.5 else []
     if kind == 'request':
         hs = REQ(rng, extra=extra)
     elif kind == 'response':
@@ -201,7 +209,7 @@ class Gen(object):
             kind = pick(rng, ['response', 'response', 'response', 'info', 'trailers', 'request'])
         if invalid and rng.random() < 0.5:
             kind = pick(rng, ['request', 'response', 'info', 'trailers', 'none'])
-        hs = header_list(rng, kind, self.allow_str, 0.6 if invalid else 0.12)
+        hs = header_list(rng, kind, self.allow_str, 0.6 if invalid else 0.05, clean=(not invalid and rng.random() < 0.8))
         if rng.random() < 0.04:
             hs.append(big_headers(rng, pick(rng, [16370, 16379, 16380, 16384, 16385, 16390, 33000]) - 40))
         es = rng.random() < (0.75 if kind == 'trailers' else 0.3)
@@ -333,12 +341,98 @@ class Gen(object):
             return nxt + 1
         return pick(rng, [0, 1, 2, 3, hi, max(0, hi - 2), 2**31 - 1])
 
+    def valid_frame(self, c):
+        """one frame the peer of `c` could legitimately send now (judged from the real stream states)"""
+        rng = self.rng
+        rcn = self.rc(c)
+        conn = rcn.conn
+        streams = []
+        for sid, st in conn.streams.items():
+            sm = st.state_machine
+            streams.append((sid, sm.state.name, bool(sm.headers_received), bool(sm.trailers_received)))
+        recv_open = [x for x in streams if x[1] in ('OPEN', 'HALF_CLOSED_LOCAL')]
+        hi = conn.highest_inbound_stream_id
+        k = rng.random()
+        if conn.state_machine.state.name == 'IDLE':
+            k = k * 0.2 if not rcn.client else 0.6 + k * 0.24
+        if k < 0.2:
+            if not rcn.client:
+                sid = hi + 2 if hi else 1
+                hs = header_list(rng, 'request', False, 0.03, clean=True)
+                return wire.headers_frames(sid, wire.hpack_literal_block(hs), end_stream=rng.random() < 0.35,
+                                           prio=((pick(rng, [0, 1, 3]), rng.randrange(256), rng.random() < 0.5) if rng.random() < 0.15 else None),
+                                           pad=(pick(rng, [0, 3]) if rng.random() < 0.1 else None),
+                                           max_frag=(pick(rng, [1, 5]) if rng.random() < 0.1 else None))
+            cand = [x for x in recv_open if not x[2]]
+            if cand:
+                sid = pick(rng, cand)[0]
+                kind = 'info' if rng.random() < 0.2 else 'response'
+                hs = header_list(rng, kind, False, 0.03, clean=True)
+                return wire.headers_frames(sid, wire.hpack_literal_block(hs), end_stream=(kind != 'info' and rng.random() < 0.3))
+            reserved = [x for x in streams if x[1] == 'RESERVED_REMOTE']
+            if reserved:
+                sid = pick(rng, reserved)[0]
+                return wire.headers_frames(sid, wire.hpack_literal_block(header_list(rng, 'response', False, 0.03, clean=True)), end_stream=rng.random() < 0.3)
+        if k < 0.45:
+            cand = [x for x in recv_open if x[2] and not x[3]]
+            if cand:
+                sid = pick(rng, cand)[0]
+                if rng.random() < 0.12:
+                    return wire.headers_frames(sid, wire.hpack_literal_block(header_list(rng, 'trailers', False, 0.03, clean=True)), end_stream=True)
+                try:
+                    w = conn.remote_flow_control_window(sid)
+                except Exception:
+                    w = 0
+                w = min(w, conn.max_inbound_frame_size)
+                n = rng.randrange(0, 200) if rng.random() < 0.6 else pick(rng, [w, max(0, w - 1), w // 2, 1024, 0])
+                n = max(0, min(n, w, self.max_data))
+                pad = pick(rng, [0, 1, 9]) if rng.random() < 0.12 else None
+                if pad is not None:
+                    n = max(0, n - pad - 1) if n >= pad + 1 else 0
+                    if n + pad + 1 > w:
+                        pad = None
+                return wire.data_frame(sid, bytes([rng.randrange(256)]) * n, rng.random() < 0.3, pad)
+        if k < 0.55:
+            tgt = [0] + [x[0] for x in streams]
+            return wire.window_update(pick(rng, tgt), rng.randrange(1, 70000))
+        if k < 0.6 and streams:
+            return wire.rst_stream(pick(rng, streams)[0], pick(rng, ERR_CODES))
+        if k < 0.72:
+            if rng.random() < 0.35:
+                return wire.settings_frame(ack=True)
+            items = []
+            for _ in range(rng.randrange(0, 3)):
+                kk = pick(rng, [1, 2, 3, 4, 5, 6, 8, 9, 0x10])
+                v = pick(rng, {1: [0, 100, 4096, 65536], 2: ([0, 1] if not rcn.client else [0]), 3: [0, 1, 2, 5, 100],
+                               4: [0, 100, 65535, 65536, 2**31 - 1], 5: [16384, 16385, 20000, 2**24 - 1],
+                               6: [0, 100, 65536], 8: [0, 1]}.get(kk, [0, 7]))
+                items.append((kk, v))
+            return wire.settings_frame(items)
+        if k < 0.78:
+            return wire.ping(small_bytes(rng, 8), rng.random() < 0.4)
+        if k < 0.84:
+            sid = pick(rng, [x[0] for x in streams] + [hi + 2 if hi else 1, 9, 10])
+            return wire.priority(sid, pick(rng, [d for d in (0, 1, 3, 7) if d != sid]), rng.randrange(256), rng.random() < 0.5)
+        if k < 0.9 and rcn.client:
+            par = [x for x in streams if x[1] in ('OPEN', 'HALF_CLOSED_LOCAL') and x[0] % 2 == 1]
+            if par and conn.local_settings.enable_push:
+                return wire.push_promise_frames(pick(rng, par)[0], hi + 2 if hi else 2,
+                                                wire.hpack_literal_block(header_list(rng, 'request', False, 0.03, clean=True)))
+        if k < 0.94:
+            return wire.altsvc(0, b'example.org', b'h2=":443"') if rng.random() < 0.5 or not streams else \
+                wire.altsvc(pick(rng, streams)[0], b'', b'h2=":443"')
+        return wire.frame(rng.randrange(11, 256), rng.randrange(256), pick(rng, [0, 1, 2, 3]), small_bytes(rng))
+
     def inject_frames(self, c):
         """one or a few structurally valid (possibly semantically wrong) peer frames as bytes"""
         rng = self.rng
         rcn = self.rc(c)
         conn = rcn.conn
         out = b''
+        if rng.random() >= self.invalid:
+            for _ in range(1 if rng.random() < 0.7 else rng.randrange(2, 4)):
+                out += self.valid_frame(c)
+            return out
         for _ in range(1 if rng.random() < 0.7 else rng.randrange(2, 5)):
             k = rng.random()
             if k < 0.22:      # HEADERS
@@ -427,6 +521,16 @@ class Gen(object):
             if r <= 0:
                 break
         c = pick(rng, self.conns)
+        # the connection state machine treats most calls on an IDLE connection as fatal: mostly open a stream first
+        if (self.rc(c).conn.state_machine.state.name == 'IDLE' and rng.random() < 0.93 and
+                nme in ('end_stream', 'push_stream', 'reset_stream', 'altsvc', 'send_data')):
+            if self.rc(c).client:
+                nme = 'send_headers'
+            elif len(self.conns) > 1:
+                nme = 'xfer'
+                c = [x for x in self.conns if x != c][0]
+            else:
+                nme = 'query'
         if nme == 'send_headers':
             return self.op_send_headers(c)
         if nme == 'send_data':
